@@ -97,6 +97,63 @@ def child_main():
     print(json.dumps({"transcript": transcript(rn, spec["ops"]), "verify": v, "hashseed": os.environ.get("PYTHONHASHSEED")}))
 
 
+def default_container_case(rng, counters, violations):
+    """The library's own default container (Manager.ref() without a container: utils.AttrDict),
+    accessed by attribute and by item, must survive the round trip like any other container."""
+    import xdeps
+    m = xdeps.Manager()
+    r = m.ref(label="r")
+    names = ["a", "b", "c", "d", "e"]
+    log = []
+
+    def step(root, kind, nm, val):
+        if kind == "attr":
+            setattr(root, nm, val(root))
+        else:
+            root[nm] = val(root)
+
+    def state(root):
+        d = root._owner
+        return sorted((k, canon(v)) for k, v in d.items()), sorted((k, canon(getattr(d, k))) for k in d)
+
+    ops = []
+    for i, nm in enumerate(names):
+        kind = rng.choice(["attr", "item"])
+        if i < 2:
+            v = rng.choice([1.0, 2.5, -3.0])
+            ops.append((kind, nm, lambda root, v=v: v, "%s" % v))
+        else:
+            a, b = rng.sample(names[:i], 2)
+            how = rng.choice(["aa", "ii", "ai"])
+            ops.append((kind, nm, lambda root, a=a, b=b, how=how:
+                        (getattr(root, a) if how[0] == "a" else root[a]) * 2 + (getattr(root, b) if how[1] == "a" else root[b]),
+                        "%s*2+%s (%s)" % (a, b, how)))
+    for kind, nm, val, txt in ops:
+        step(r, kind, nm, val)
+        log.append([kind, nm, txt])
+    try:
+        m2 = pickle.loads(pickle.dumps(m))
+    except Exception as exc:
+        violations.append({"what": "C12 default container: pickle round trip raised %s" % type(exc).__name__, "ops": log})
+        return
+    r2 = m2.containers["r"]
+    counters["default_container_cases"] = counters.get("default_container_cases", 0) + 1
+    if state(r) != state(r2):
+        violations.append({"what": "C12 default container: contents differ right after restore", "ops": log})
+        return
+    for j in range(rng.randrange(3, 7)):
+        kind, nm, v = rng.choice(["attr", "item"]), rng.choice(names[:2]), rng.choice([0.5, 4.0, -1.5, 7.0])
+        for root in (r, r2):
+            step(root, kind, nm, lambda root, v=v: v)
+        log.append([kind, nm, v])
+        sa, sb = state(r), state(r2)
+        counters["mirrored_followups"] = counters.get("mirrored_followups", 0) + 1
+        if sa != sb or sb[0] != sb[1]:
+            violations.append({"what": "C12 default container (xdeps.utils.AttrDict): after restore and %s-assignment of %s the copy holds "
+                                       "items %s / attributes %s, the original %s" % (kind, nm, sb[0], sb[1], sa[0]), "ops": log})
+            return
+
+
 def run_shard(spec):
     rng = random.Random("C12:%s:%s" % (spec["seed"], spec["shard"]))
     mgrmon.install_run_events()
@@ -104,6 +161,10 @@ def run_shard(spec):
     W = {"define": 0.55, "leafval": 0.18, "val": 0.07, "iop": 0.1, "unreg": 0.03, "ftask": 0.0, "knob": 0.05,
          "replace": 0.02, "unreg_task": 0.0}
     n_cross = 0
+    for n in range(60):
+        default_container_case(rng, counters, violations)
+        if violations:
+            break
     for n in range(spec["managers"] if not spec.get("replay") else 40):
         hg = gen.HistoryGen(rng, layered=True, depth=rng.choice([2, 3, 4]), profile=PROFILE, weights=W)
         ls = lockstep.LockStep(hg.world)
